@@ -54,8 +54,8 @@ const SPEC: Spec = Spec {
         "the borrow limit is per (publisher, subscriber) connection, as the data segment sizing formula assumes",
         "request-response, event, blackboard and node limits are covered by the parts of checks_ice::reqres and checks_ice::limits",
     ],
-    watchdog_quick_s: 1800,
-    watchdog_thorough_s: 14400,
+    watchdog_quick_s: 3600,
+    watchdog_thorough_s: 28800,
 };
 
 #[derive(Clone, Debug, Serialize, Deserialize)]
@@ -399,7 +399,7 @@ fn body(ctx: &mut Ctx) {
     let excluded = std::cell::Cell::new(0u64);
     let steps = ctx.scale(120, 300);
     for (policy, name) in [(0u8, "saturate.local"), (1, "churn.local"), (2, "random.local")] {
-        let n = ctx.scale(12_000, 200_000);
+        let n = ctx.scale(12_000, 120_000);
         let strat = adv_strategy(steps, exclude).prop_map(move |mut c| {
             c.policy = policy;
             c
@@ -411,7 +411,7 @@ fn body(ctx: &mut Ctx) {
             run(Variant::Local, c, obs)
         });
     }
-    let n = ctx.scale(2_000, 40_000);
+    let n = ctx.scale(2_000, 25_000);
     ctx.proptest("adversary.ipc", cases(n), adv_strategy(steps, exclude), |c, obs| {
         if c.excluded {
             excluded.set(excluded.get() + 1);
